@@ -671,7 +671,16 @@ class ProgGen:
                     "_ht.FunctionType([_int_t(6)], [_int_t(6)])), description=\"demo op\"))", "",
                     f"@hugr_op(lambda ty, inst, ctx: _hops.ExtOp({prefix}XFROB, ty, []))",
                     f"def {prefix}frob(x: int) -> int: ...", "",
-                    "@guppy", f"def {prefix}uses_ext(x: int) -> int:", f"    return {prefix}frob(x) + 1", ""]
+                    ]
+            body_ext = f"{prefix}frob(x) + 1"
+            if ch.draw(2, "second_ext"):
+                src += [f"{prefix}YEXT = _he.Extension(\"acme.clock\", _he.Version(0, 2, 0))",
+                        f"{prefix}YTICK = {prefix}YEXT.add_op_def(_he.OpDef(\"tick\", signature=_he.OpDefSig("
+                        "_ht.FunctionType([_int_t(6)], [_int_t(6)])), description=\"demo op 2\"))", "",
+                        f"@hugr_op(lambda ty, inst, ctx: _hops.ExtOp({prefix}YTICK, ty, []))",
+                        f"def {prefix}tick(x: int) -> int: ...", ""]
+                body_ext = f"{prefix}frob({prefix}tick(x)) + 1"
+            src += ["@guppy", f"def {prefix}uses_ext(x: int) -> int:", f"    return {body_ext}", ""]
             defs += [f"{prefix}uses_ext"]
             sigs.append(FnSig(f"{prefix}uses_ext", [("x", "int")], "int", "custext"))
         if fams["affine"]:
